@@ -497,7 +497,8 @@ def run(ctx):
     ncases = ctx.pick({"quick": 36, "thorough": 500})
     try:
         for k in range(ncases):
-            if not ctx.budget_ok():
+            # one case of every statement kind is always run, whatever the load
+            if k >= len(g.KINDS) and not ctx.budget_ok():
                 break
             kind = g.KINDS[k % len(g.KINDS)] if k < 2 * len(g.KINDS) else rng.choice(g.KINDS)
             struct_seed = rng.randrange(1 << 40)
